@@ -39,10 +39,12 @@ Fixpoint all2 {A B} (f : A -> B -> bool) (la : list A) (lb : list B) : bool :=
   end.
 
 (* which observables a property's theorems are about: only those are compared for that property *)
-Record mode := mkMode { m_api : bool; m_tables : bool; m_reached : bool; m_inits : bool; m_dests : bool }.
-Definition mode_c06 := mkMode false false true true true.
-Definition mode_c11 := mkMode true false false false false.
-Definition mode_c12 := mkMode true true true false false.
+Record mode := mkMode { m_api : bool; m_tables : bool; m_reached : bool; m_reach_live : bool; m_inits : bool; m_dests : bool }.
+(* C06 is about the source a backend of a RUNNING session sees (m_reach_live); whether traffic reaches a synchroniser or an
+   instance of a session that is over is C12's clause *)
+Definition mode_c06 := mkMode false false true true true true.
+Definition mode_c11 := mkMode true false false false false false.
+Definition mode_c12 := mkMode true true true false false false.
 Definition imp (a b : bool) : bool := negb a || b.
 
 Definition is_live (w : world) (sid : N) : bool :=
@@ -52,7 +54,8 @@ Definition step_ok (md : mode) (w : world) (o : obs) (e : ostep) : bool :=
   imp (m_api md) (forallb (fun '(sid, r) => ores_eqb (match sget (sessions w) sid with Some s => s_api s | None => None end) r) (os_api e)) &&
   imp (m_tables md) (kseteq (map fst (syncs w)) (os_syncs e) && kseteq (map fst (rbcs w)) (os_rbcs e) &&
                      kseteq (map fst (cls w)) (os_cls e) && Bool.eqb (dkg w) (os_dkg e)) &&
-  imp (m_reached md) (list_eqb reach_eqb (o_reached o) (os_reached e)) &&
+  imp (m_reached md) (let f := fun r => negb (m_reach_live md) || match r with ROnMsg sid _ _ => is_live w sid | _ => false end in
+                      list_eqb reach_eqb (filter f (o_reached o)) (filter f (os_reached e))) &&
   (* what a backend is initialised with matters for sessions that are still running: a continuation that fires after
      its session ended may or may not build a signer before it notices *)
   imp (m_inits md) (list_eqb init_eqb (filter (fun i => is_live w (fst i)) (o_inits o)) (filter (fun i => is_live w (fst i)) (os_inits e))) &&
